@@ -35,6 +35,13 @@ func datumTransform(source, dest *datum, x, y, z float64) (float64, float64, flo
 
 	var dst_a = dest.a
 	var dst_es = dest.es
+	// The datum objects are shared by every transformer built from their
+	// spatial references: whatever is changed below is put back, also when the
+	// function returns with an error.
+	defer func() {
+		source.a, source.es = src_a, src_es
+		dest.a, dest.es = dst_a, dst_es
+	}()
 
 	var fallback = source.datum_type
 	// If this datum requires grid shifts, then apply it to geodetic coordinates.
@@ -101,11 +108,6 @@ func datumTransform(source, dest *datum, x, y, z float64) (float64, float64, flo
 		//this.apply_gridshift(dest, 1, x, y, z)
 		// CHECK_RETURN;
 	}
-
-	source.a = src_a
-	source.es = src_es
-	dest.a = dst_a
-	dest.es = dst_es
 
 	return x, y, z, nil
 }
